@@ -39,3 +39,35 @@ package emit
 //@   ghostcall collectEmitsBlock visitedBlock block
 //@   traverse stepmark 1 block ir.Block visitedBlock($)
 //
+
+// ---- value renumbering of helper functions (C18) ---------------------------------------------------
+//
+// Emitter-private value ids (parameters 0..n-1, then instruction results) are
+// replaced by module-wide ids. Every operand that names a value must go
+// through the map - including the operand of `ret`, whose emitter id can be 0
+// (the first parameter).
+//
+//@ func (*Emitter).finalizeHelperFunction
+//@   mode bv
+//@   tags C18
+//@   loop 6 step [ret-remapped] prev(bb.Instructions[rangeindex+1]) != nil && prev(bb.Instructions[rangeindex+1].Kind) == module.InstrRet && prev(bb.Instructions[rangeindex+1].ReturnValue) >= 0 && has(funcIDMap, prev(bb.Instructions[rangeindex+1].ReturnValue)) ==> prev(bb.Instructions[rangeindex+1]).ReturnValue == funcIDMap[prev(bb.Instructions[rangeindex+1].ReturnValue)]
+//
+// Which operands of an LLVM 3.7 instruction record are value ids (and must be
+// renumbered): per instruction kind, from the record layouts of the bitcode format.
+//
+//@ func valueOperandIndices
+//@   mode bv
+//@   tags C18
+//@   ensures [binop] instr.Kind == module.InstrBinOp || instr.Kind == module.InstrCmp || instr.Kind == module.InstrStore || instr.Kind == module.InstrInsertVal || instr.Kind == module.InstrAtomicRMW ==> len(result) == 2 && result[0] == 0 && result[1] == 1
+//@   ensures [three] instr.Kind == module.InstrSelect || instr.Kind == module.InstrCmpXchg ==> len(result) == 3 && result[0] == 0 && result[1] == 1 && result[2] == 2
+//@   ensures [first] instr.Kind == module.InstrCast || instr.Kind == module.InstrExtractVal || instr.Kind == module.InstrLoad ==> len(result) == 1 && result[0] == 0
+//@   ensures [alloca] instr.Kind == module.InstrAlloca ==> len(result) == 1 && result[0] == 2
+//@   ensures [cond-br] instr.Kind == module.InstrBr && len(instr.Operands) >= 3 ==> len(result) == 1 && result[0] == 2
+//@   ensures [br] instr.Kind == module.InstrBr && len(instr.Operands) < 3 ==> len(result) == 0
+//@   ensures [ret] instr.Kind == module.InstrRet ==> len(result) == 0
+//@   assigns HA_int
+//
+//@ func (*Emitter).finalize
+//@   mode bv
+//@   tags C18
+//@   loop 9 step [ret-remapped] prev(bb.Instructions[rangeindex+1]) != nil && prev(bb.Instructions[rangeindex+1].Kind) == module.InstrRet && prev(bb.Instructions[rangeindex+1].ReturnValue) >= 0 && has(idMap, prev(bb.Instructions[rangeindex+1].ReturnValue)) ==> prev(bb.Instructions[rangeindex+1]).ReturnValue == idMap[prev(bb.Instructions[rangeindex+1].ReturnValue)]
